@@ -34,6 +34,10 @@ def main(argv: List[str]) -> int:
 
     w_, i_, items_ = gh.rust_special_items()
     verify_helper_items(run, stats, w_, i_, items_)
+    from lib.helpers_verify import verify_report
+
+    wx, repx = gh.rust_extras_item()
+    verify_report(run, stats, wx, repx, f"{gh.RUST_REL}::generate_extras", 'generate_extras does not emit #[cfg(feature = "proposed")] exactly for proposed elements / #[deprecated] exactly for deprecated ones')
     # ---- evaluated: postcondition of generate_lib_rs on the current generator's output and on the committed file
     tmp = gen.scratch()
     n = 0
